@@ -120,6 +120,10 @@ class Client:
     def lib_kinds(self, name: str, ev: Event) -> Iterable[str]:
         return ()
 
+    def callback_results(self, category: str, ev: Event) -> list | None:
+        """abstract values a callback may return (None = one unknown value)"""
+        return None
+
     def opaque_kinds(self, fi: FuncInfo, ev: Event) -> Iterable[str]:
         """kinds an un-descended repository call may raise"""
         return ()
@@ -831,9 +835,10 @@ class Interp:
                 cs_ok = self.client.on_event(ev, cs)
                 for kind in self.client.callback_kinds(cat, ev):
                     raise_from(node, kind, env, self.client.on_event_exc(ev, cs, kind), w)
-                env2 = dict(env)
-                env2[("$r", id(call))] = KILL
-                go(node, env2, cs_ok, self._witness(w, ("callback", cat, f"{fi.module.relpath}:{node.lineno}")))
+                for rv in self.client.callback_results(cat, ev) or [None]:
+                    env2 = dict(env)
+                    env2[("$r", id(call))] = rv if rv is not None else KILL
+                    go(node, env2, cs_ok, self._witness(w, ("callback", cat, f"{fi.module.relpath}:{node.lineno}", rv)))
                 continue
             # lib / unknown
             name = tg.name or "?"
